@@ -232,7 +232,8 @@ class Run:
             hc = os.path.join(ud, 'h.c')
             open(hc, 'w').write(self.make_harness(unit, info, cname))
             defs = ['-DVERIF_CBMC']
-            if unit.mode == 'uf': defs.append('-DVERIF_UF')
+            if unit.mode in ('uf', 'fuf'): defs.append('-DVERIF_UF')
+            if unit.mode == 'fuf': defs.append('-DVERIF_FUF')
             rc, out, err, dt = sh(['goto-cc'] + defs + ['-I', VERIF, hc, '-o', os.path.join(ud, 'h.gb')], timeout=300)
             if rc != 0: raise Undecided('goto-cc failed for %s: %s' % (unit.name, (err + out)[-3000:]))
             # code loops without a loop contract must be unwound before dfcc (constant-trip loops only; see README)
@@ -348,7 +349,7 @@ def _run_lemma_unit(self, unit, info, res, t0):
     lines += ['  __CPROVER_assert(%s(%s), "lemma %s");' % (unit.lemma, ', '.join(names), unit.lemma),
               '  __CPROVER_assert(0, "VERIF_CANARY reachability of the end of the harness");', '  return 0;', '}']
     hc = os.path.join(ud, 'h.c'); open(hc, 'w').write('\n'.join(lines))
-    defs = ['-DVERIF_CBMC'] + (['-DVERIF_UF'] if unit.mode == 'uf' else [])
+    defs = ['-DVERIF_CBMC'] + (['-DVERIF_UF'] if unit.mode in ('uf', 'fuf') else []) + (['-DVERIF_FUF'] if unit.mode == 'fuf' else [])
     rc, out, err, dt = sh(['goto-cc'] + defs + ['-I', VERIF, hc, '-o', os.path.join(ud, 'h.gb')], timeout=300)
     if rc != 0: raise Undecided('goto-cc failed for %s: %s' % (unit.name, (err + out)[-2000:]))
     cb = ['cbmc', os.path.join(ud, 'h.gb'), '--json-ui', '--trace', '--unwind', str(unit.unwind or 10), '--unwinding-assertions'] + CBMC_CHECKS + unit.extra
@@ -410,6 +411,14 @@ def value_to_c(v):
             core = '__builtin_inf()' if d.lstrip('+-').lower() != 'nan' else '__builtin_nan("")'
             return ('(-%s)' % core) if d.startswith('-') else core
         t = v.get('type', '')
+        if n == 'float' and re.match(r'^[01]+$', str(v.get('binary', ''))) and len(v['binary']) in (32, 64):
+            # exact value from the bit pattern (the decimal rendering is rounded to 6 digits)
+            import struct as _st
+            b = v['binary']
+            x = _st.unpack('>f' if len(b) == 32 else '>d', int(b, 2).to_bytes(len(b) // 8, 'big'))[0]
+            if x != x: return '__builtin_nanf("")' if len(b) == 32 else '__builtin_nan("")'
+            if x in (float('inf'), float('-inf')): return ('(-__builtin_inff())' if x < 0 else '__builtin_inff()') if len(b) == 32 else ('(-__builtin_inf())' if x < 0 else '__builtin_inf()')
+            return x.hex() + ('f' if len(b) == 32 else '')
         if n == 'integer':
             if d[-1:].isalpha(): return d          # cbmc already printed a suffix (e.g. '4u', '2ul')
             if 'unsigned' in t and ('long' in t): return d + 'UL'
@@ -496,12 +505,12 @@ static const Cand cands[] = {
 int main() {
   const unsigned long N = sizeof(cands) / sizeof(cands[0]);
   unsigned long tried = 0;
-  for (unsigned long c = 0; c < N; c++) {
-    const Cand& C = cands[c];
+  for (unsigned long cand_i__ = 0; cand_i__ < N; cand_i__++) {
+    const Cand& C = cands[cand_i__];
 %(decls)s
 %(pre)s
     tried++;
-    std::printf("CAND %%lu\n", c); std::fflush(stdout);
+    std::printf("CAND %%lu\n", cand_i__); std::fflush(stdout);
     auto ret = %(entry)s(%(args)s);
     (void)ret;
 %(post)s
@@ -543,7 +552,9 @@ def mutate_value(v, rng, p=0.5):
         return dict(v, data=rng.choice(['TRUE', 'FALSE'])) if rng.random() < p else v
     if n == 'float':
         if rng.random() > p: return v
-        return dict(v, data=str(rng.choice([0.0, 1.0, -1.0, 0.5, 2.0, 1e-6, 1e6, 3.0])))
+        w = dict(v); w.pop('binary', None)      # (value_to_c prefers the exact bit pattern when present)
+        w['data'] = str(rng.choice([0.0, 1.0, -1.0, 0.5, 2.0, 1e-6, 1e6, 3.0, '-0.0', 'inf', '-inf', 'NaN', 3e38, -3e38, 1e-40]))
+        return w
     return v
 
 def native_replay(run_dir, info, entry, hdr, cand_list, spec_hdr_path, exclude=()):
@@ -583,12 +594,12 @@ def native_replay(run_dir, info, entry, hdr, cand_list, spec_hdr_path, exclude=(
         rows.append('  {' + ', '.join(vals) + '},')
     pre = ''
     if entry in hdr['pre']:
-        pre = '    if (!pre_%s(%s)) { if (c == 0) std::puts("REPLAY: precondition false for the verifier counterexample (UF / invariant-havoc artefact)"); continue; }' % (entry, ', '.join(args))
+        pre = '    if (!pre_%s(%s)) { if (cand_i__ == 0) std::puts("REPLAY: precondition false for the verifier counterexample (UF / invariant-havoc artefact)"); continue; }' % (entry, ', '.join(args))
     for rg in exclude:
         pre += '\n    if (%s) continue;   /* inside a known-finding region */' % rg
     post = ''
     if entry in hdr['post']:
-        post = '    if (!post_%s(%s)) { std::printf("REPLAY: postcondition VIOLATED on the real code, candidate %%lu\\n", c); return 1; }' % (entry, ', '.join(args + ['ret']))
+        post = '    if (!post_%s(%s)) { std::printf("REPLAY: postcondition VIOLATED on the real code, candidate %%lu\\n", cand_i__); return 1; }' % (entry, ', '.join(args + ['ret']))
     src = REPLAY_TMPL % {'inst_src': info['src'], 'structs': open(info['structs']).read(), 'spec_hdr': spec_hdr_path,
                          'fields': ' '.join(fields), 'cands': '\n'.join(rows),
                          'decls': '\n'.join(decls), 'pre': pre, 'post': post, 'entry': entry, 'args': ', '.join(args)}
@@ -713,8 +724,8 @@ def translation_validation(run, inst, info, hdr, spec_hdr_path, n_inputs, seed, 
         decls.append('extern "C" %s cgen_%s(%s);' % (cxx(ret), entry, ', '.join(cxx(p['decl'].replace('$', p['name'])) for p in f['params'])))
         decls.append('struct Cand_%s { %s };' % (entry, ' '.join(fields)))
         decls.append('static const Cand_%s cands_%s[] = {\n%s\n};' % (entry, entry, '\n'.join(rows)))
-        body.append('  for (unsigned long c = 0; c < sizeof(cands_%s) / sizeof(cands_%s[0]); c++) {' % (entry, entry))
-        body.append('      const Cand_%s& C = cands_%s[c];' % (entry, entry))
+        body.append('  for (unsigned long cand_i__ = 0; cand_i__ < sizeof(cands_%s) / sizeof(cands_%s[0]); cand_i__++) {' % (entry, entry))
+        body.append('      const Cand_%s& C = cands_%s[cand_i__];' % (entry, entry))
         body.extend(dl)
         body.append('      if (!pre_%s(%s)) continue;' % (entry, ', '.join(args_real)))
         for rg in (regions or {}).get(entry, []):
@@ -722,7 +733,7 @@ def translation_validation(run, inst, info, hdr, spec_hdr_path, n_inputs, seed, 
         body.append('      auto real = %s(%s);' % (entry, ', '.join(args_real)))
         body.append('      auto gen  = cgen_%s(%s);' % (entry, ', '.join(args_raw)))
         body.append('      compared++;')
-        body.append('      if (!tv::eq(real, gen)) { mism++; std::printf("TV MISMATCH %s candidate %%lu\\n", c); }' % entry)
+        body.append('      if (!tv::eq(real, gen)) { mism++; std::printf("TV MISMATCH %s candidate %%lu\\n", cand_i__); }' % entry)
         body.append('  }')
         syms.append(entry); res['wrappers'].append(entry)
     if not syms: return res
